@@ -36,7 +36,11 @@ FInterpMatrixKernelR<Real>& mk() { static FInterpMatrixKernelR<Real> m; return m
 template <class Space> std::vector<std::array<Real, 4>> runFmm(const Cfg& cfg, const Parts4<Real>& parts, const RunCfg& rc, long upper, std::map<std::pair<long, long>, std::vector<Real>>* multipoles = nullptr) {
     Tree<Space> tree(cfg, parts, rc.bs, rc.ogp);
     if (rc.exec == 0) { auto algo = std::make_unique<TbfAlgorithm<Real, Kernel<Space>, Space>>(cfg, Kernel<Space>(cfg, &mk()), upper); algo->execute(tree); }
-    else { vsched::configure(rc.threads, rc.policy, 7); auto algo = std::make_unique<TbfOpenmpAlgorithm<Real, Kernel<Space>, Space>>(cfg, Kernel<Space>(cfg, &mk()), upper); algo->execute(tree); }
+    else {
+        // VH_FORCE_WAVE (ThreadSanitizer jobs): mutually unordered tasks are released together on >= 4 real threads
+        if (getenv("VH_FORCE_WAVE")) vsched::configure(std::max(4, rc.threads), vsched::WAVE_RANDOM, 7); else vsched::configure(rc.threads, rc.policy, 7);
+        auto algo = std::make_unique<TbfOpenmpAlgorithm<Real, Kernel<Space>, Space>>(cfg, Kernel<Space>(cfg, &mk()), upper); algo->execute(tree);
+    }
     if (multipoles) tree.applyToAllCells([&](long L, auto& hdr, auto& m, auto&) { auto& v = (*multipoles)[{L, hdr.spaceIndex}]; v.assign(m->get().multipole_exp, m->get().multipole_exp + VS); });
     return rhsByIndex<Real>(tree, long(parts.size()));
 }
@@ -51,13 +55,13 @@ void accuracyCase(long kk, uint64_t seed, bool th, Result& res) {
     int dist = dists[r.below(7)];
     if (H >= 5 && ORDER >= 5) dist = tbx::D_CLUSTER; // deep trees with big cells: keep the number of cells small
     const long N = th ? r.range(200, ORDER >= 7 ? 1200 : 3000) : r.range(100, ORDER >= 6 ? 500 : 1200);
-    const int sign = int(r.below(3));
+    const int sign = ((kk / 4) % 3 == 0) ? 3 : int(r.below(3));   // 3 = neutral +q/-q pairs sharing a leaf (cells with zero net charge)
     const std::string cls = (dist == tbx::D_UNIFORM || dist == tbx::D_CLUSTER) ? ".smooth" : ".edge";
     const auto parts = genCharged<Real>(r, cfg, dist, N, sign, Real(double(geo.width[0]) * 1e-4));
     const long n = long(parts.size());
     const auto bss = tbx::blockSizesFor(n, false);
     const RunCfg rc{bss[r.below(bss.size())], r.coin(), 0, 1, 0};
-    res.desc = KEY + " height=" + vh::str(H) + " box=" + geo.name + " width=" + vh::str((double)geo.width[0]) + " N=" + vh::str(n) + " dist=" + vh::str(dist) + " charges=" + (sign == 0 ? "+" : sign == 1 ? "-" : "+-") + " blockSize=" + vh::str(rc.bs) + " ogp=" + vh::str(rc.ogp);
+    res.desc = KEY + " height=" + vh::str(H) + " box=" + geo.name + " width=" + vh::str((double)geo.width[0]) + " N=" + vh::str(n) + " dist=" + vh::str(dist) + " charges=" + (sign == 0 ? "+" : sign == 1 ? "-" : sign == 3 ? "neutral-pairs" : "+-") + " blockSize=" + vh::str(rc.bs) + " ogp=" + vh::str(rc.ogp);
     vh::announce(res.desc);
     if (n < 2) { res.skipped = true; res.skipReason = "fewer than 2 distinct particles"; return; }
     std::map<std::pair<long, long>, std::vector<Real>> m1;
@@ -73,7 +77,7 @@ void accuracyCase(long kk, uint64_t seed, bool th, Result& res) {
     res.ev("targets-compared", (long long)which.size()); res.ev("fmm-runs");
     if (kk % 3 == 0) {
         // batched children: block size 1 (every parent receives its children one call at a time) vs one huge block; also another executor
-        RunCfg rc2{(kk % 2) ? 1L : 10000000L, !rc.ogp, int((kk / 3) % 2), int(r.pick(std::vector<int>{1, 2, 4, 16})), int(r.below(vsched::NB_POLICIES))};
+        RunCfg rc2{(kk % 2) ? 1L : 10000000L, !rc.ogp, getenv("VH_FORCE_WAVE") ? 1 : int((kk / 3) % 2), int(r.pick(std::vector<int>{1, 2, 4, 16})), int(r.below(vsched::NB_POLICIES))};
         std::map<std::pair<long, long>, std::vector<Real>> m2;
         const auto got2 = runFmm<SpaceN>(cfg, parts, rc2, 2, &m2);
         const Errs d = diffNormalised<Real>(got, got2, which, R);
@@ -156,6 +160,45 @@ void periodicCase(long kk, uint64_t seed, bool th, Result& res) {
     res.ev("periodic-runs"); res.ev("targets-compared", (long long)which.size());
     res.sig = KEY + ",per,H" + vh::str(H) + ",x" + vh::str(extra) + "," + vh::str(kk); res.nontrivial = true;
 }
+// periodic target/source: periodic ordering, target/source tree and executor, target/source top tree, explicit image sum
+void periodicTsmCase(long kk, uint64_t seed, bool th, Result& res) {
+    using namespace TbfAlgorithmUtils;
+    vh::Rng r(vh::mix(seed ^ 0xC05E, uint64_t(kk) * 64 + ORDER * 2 + VH_REALF));
+    const long H = r.range(2, th ? 4 : 3);
+    const long extra = r.range(-1, th ? 2 : 1);
+    auto geo = tbx::genGeo<Real, 3>(r, H, true, int(r.below(3)));
+    const Cfg cfg(H, geo.width, geo.center);
+    const auto src = genCharged<Real>(r, cfg, int(r.below(2)), r.range(30, th ? 150 : 80), int(r.below(3)), Real(double(geo.width[0]) * 1e-3));
+    auto tgt = genCharged<Real>(r, cfg, int(r.below(2)), r.range(30, th ? 150 : 80), int(r.below(3)), Real(double(geo.width[0]) * 1e-3));
+    Parts4<Real> t2; for (auto& t : tgt) { bool ok = true; for (auto& q : src) { const Real dx = q[0] - t[0], dy = q[1] - t[1], dz = q[2] - t[2]; if (dx * dx + dy * dy + dz * dz < Real(1e-6) * geo.width[0] * geo.width[0]) { ok = false; break; } } if (ok) t2.push_back(t); }
+    tgt.swap(t2);
+    res.desc = KEY + " periodic target/source height=" + vh::str(H) + " extraLevels=" + vh::str(extra) + " box=" + geo.name + " Ns=" + vh::str(src.size()) + " Nt=" + vh::str(tgt.size());
+    vh::announce(res.desc);
+    if (src.empty() || tgt.empty()) { res.skipped = true; res.skipReason = "empty set"; return; }
+    const auto bss = tbx::blockSizesFor(long(std::max(src.size(), tgt.size())), false);
+    TreeTsm<SpaceP> tree(cfg, src, tgt, bss[r.below(bss.size())], r.coin());
+    long lo, hi;
+    {
+        auto algo = std::make_unique<TbfAlgorithmTsm<Real, Kernel<SpaceP>, SpaceP>>(cfg, Kernel<SpaceP>(cfg, &mk()), TbfDefaultLastLevelPeriodic);
+        using Top = TbfAlgorithmPeriodicTopTreeTsm<Real, Kernel<SpaceP>, MultipoleData, LocalData, SpaceP>;
+        const auto topCfg = Top::GenerateAboveTreeConfiguration(cfg, extra);
+        auto top = std::make_unique<Top>(cfg, Kernel<SpaceP>(topCfg, &mk()), extra);
+        algo->execute(tree, TbfBottomToTopStages); top->execute(tree); algo->execute(tree, TbfTransferStages); algo->execute(tree, TbfTopToBottomStages);
+        const auto iv = top->getRepetitionsIntervals(); lo = iv.first[0]; hi = iv.second[0];
+    }
+    std::vector<std::array<Real, 4>> got(tgt.size());
+    tree.applyToAllLeavesTarget([&](auto& hdr, const long* idx, auto&&, auto&& rhs) { for (long p = 0; p < hdr.nbParticles; ++p) for (int v = 0; v < 4; ++v) got[idx[p]][v] = rhs[v][p]; });
+    const auto which = sampleTargets(r, long(tgt.size()), 50, 50);
+    std::array<Real, 3> w{geo.width[0], geo.width[1], geo.width[2]};
+    const Ref R = reference<Real>(src, tgt, which, false, lo, hi, w);
+    const Errs e = errorsAgainst<Real>(got, which, R);
+    if (!e.finite) res.fail("c05:not-finite", res.desc);
+    recordMax(res, KEY + ".per.pot", e.pot); recordMax(res, KEY + ".per.force", e.force);
+    if (e.pot > boundOf(KEY + ".per.pot", res)) res.fail("c05:periodic-tsm-potential-error-above-bound", res.desc + " err=" + vh::str(e.pot) + " images [" + vh::str(lo) + "," + vh::str(hi) + "]");
+    if (e.force > boundOf(KEY + ".per.force", res)) res.fail("c05:periodic-tsm-force-error-above-bound", res.desc + " err=" + vh::str(e.force));
+    res.ev("periodic-tsm-runs"); res.ev("targets-compared", (long long)which.size());
+    res.sig = KEY + ",per-tsm,H" + vh::str(H) + ",x" + vh::str(extra) + "," + vh::str(kk); res.nontrivial = true;
+}
 // boxes far from the origin relative to their leaf width: announced as a context (the interpolation code asserts
 // |x|-1 < 10 eps on the local coordinate, which rounding of large absolute positions exceeds: known finding of C05)
 void farBoxCase(long kk, uint64_t seed, bool, Result& res) {
@@ -181,7 +224,7 @@ void farBoxCase(long kk, uint64_t seed, bool, Result& res) {
 void VH_FN(std::map<std::string, std::vector<num::Segment>>& out) {
     num::Segment s; s.name = "c05-" + KEY;
     s.count = [](bool th) { return th ? (ORDER >= 7 ? 100L : 240L) : (ORDER >= 7 ? 30L : 60L); };
-    s.run = [](long kk, uint64_t seed, bool th, vh::Result& res) { if (kk % 5 == 3) periodicCase(kk, seed, th, res); else if (kk % 5 == 4) tsmCase(kk, seed, th, res); else accuracyCase(kk, seed, th, res); };
+    s.run = [](long kk, uint64_t seed, bool th, vh::Result& res) { if (kk % 5 == 3) { if ((kk / 5) % 2 == 1) periodicTsmCase(kk, seed, th, res); else periodicCase(kk, seed, th, res); } else if (kk % 5 == 4) tsmCase(kk, seed, th, res); else accuracyCase(kk, seed, th, res); };
     out["c05"].push_back(s);
     num::Segment s2; s2.name = "c05-farbox-" + KEY;
     s2.count = [](bool th) { return th ? 8L : 2L; };
